@@ -44,6 +44,8 @@ func vkFreeAddr() string {
 
 const (
 	vkMsgCreateIteratorReq = 21
+	vkMsgStoreReadFilterReq = 17
+	vkMsgStoreReadGroupReq  = 19
 )
 
 // vkFault is what the proxy does with the next request(s) to its node.
@@ -111,6 +113,7 @@ type vkRespState struct {
 	cut       int64 // remaining response bytes allowed; <0 = unlimited
 	delay     time.Duration
 	streaming bool // response is a TLV followed by uint32-length frames (iterator stream)
+	allTLV    bool // response is a TLV followed by TLV frames (storage read stream)
 	logIdx    int
 }
 
@@ -164,7 +167,8 @@ func (p *vkProxy) handle(c net.Conn) {
 			}
 			st.mu.Lock()
 			st.cut, st.delay = -1, 0
-			st.streaming = th[0] == vkMsgCreateIteratorReq
+			st.allTLV = th[0] == vkMsgStoreReadFilterReq || th[0] == vkMsgStoreReadGroupReq
+			st.streaming = th[0] == vkMsgCreateIteratorReq || st.allTLV
 			st.logIdx = idx
 			if f.Kind == "cut" {
 				st.cut = f.Bytes
@@ -194,7 +198,7 @@ func (p *vkProxy) handle(c net.Conn) {
 				st.mu.Lock()
 				if st.logIdx != lastIdx {
 					lastIdx, seen = st.logIdx, 0
-					fp = vkFrameParser{}
+					fp = vkFrameParser{allTLV: st.allTLV}
 				}
 				delay := st.delay
 				st.delay = 0
@@ -256,6 +260,7 @@ type vkFrameParser struct {
 	tlvDone bool
 	hdr     []byte
 	need    int64
+	allTLV  bool // storage read streams: every frame is a TLV (type byte + 8-byte length + body)
 }
 
 func (f *vkFrameParser) feed(b []byte) {
@@ -265,11 +270,11 @@ func (f *vkFrameParser) feed(b []byte) {
 			continue
 		}
 		f.hdr = append(f.hdr, x)
-		if !f.tlvDone && len(f.hdr) == 9 {
+		if (!f.tlvDone || f.allTLV) && len(f.hdr) == 9 {
 			f.need = int64(binary.BigEndian.Uint64(f.hdr[1:9]))
 			f.hdr = f.hdr[:0]
 			f.tlvDone = true
-		} else if f.tlvDone && len(f.hdr) == 4 {
+		} else if f.tlvDone && !f.allTLV && len(f.hdr) == 4 {
 			f.need = int64(binary.BigEndian.Uint32(f.hdr))
 			f.hdr = f.hdr[:0]
 		}
